@@ -26,8 +26,17 @@ def main():
         checks = [prop]
     wt = "/tmp/seedcheck-" + sid
     sh(["git", "-C", "/repo", "worktree", "remove", "--force", wt])
-    rc, out = sh(["git", "-C", "/repo", "worktree", "add", "--detach", wt, "HEAD"])
-    meta = dict(seed=sid, property=prop, base=sh(["git", "-C", "/repo", "rev-parse", "HEAD"])[1].strip(), ran=[])
+    # the change was written against /repo as it was then: use the newest of the last commits it applies to
+    base = "HEAD"
+    for cand in sh(["git", "-C", "/repo", "rev-list", "-n", "10", "HEAD"])[1].split():
+        sh(["git", "-C", "/repo", "worktree", "remove", "--force", wt])
+        sh(["git", "-C", "/repo", "worktree", "add", "--detach", wt, cand])
+        if sh(["git", "apply", "--check", os.path.join(sdir, "patch.diff")], cwd=wt)[0] == 0:
+            base = cand
+            break
+    sh(["git", "-C", "/repo", "worktree", "remove", "--force", wt])
+    rc, out = sh(["git", "-C", "/repo", "worktree", "add", "--detach", wt, base])
+    meta = dict(seed=sid, property=prop, base=sh(["git", "-C", "/repo", "rev-parse", base])[1].strip(), ran=[])
     old = {}
     mf = os.path.join(sdir, "meta.json")
     if os.path.exists(mf):
